@@ -23,7 +23,8 @@ def gen_script(rng):
         qs += ['R %s' % k]
     kind = rng.choice(['append', 'append', 'sync', 'sync', 'create', 'writeat', 'open'])
     pat = rng.choice(['.blob', '.blob', '.index']) if kind in ('append', 'sync', 'create') else ('.index' if kind == 'writeat' else '.blob')
-    action = rng.choice(['ENOSPC', 'EIO', 'short:%d' % rng.choice([0, 1, 7, 30, 60, 100])]) if kind in ('append', 'writeat') else rng.choice(['ENOSPC', 'EIO'])
+    action = rng.choice(['ENOSPC', 'EIO', 'short:%d' % rng.choice([0, 1, 7, 30, 60, 100]),
+                         'short:%d' % (rng.randrange(8, 20) if pat == '.blob' else rng.randrange(100, 700))]) if kind in ('append', 'writeat') else rng.choice(['ENOSPC', 'EIO'])
     L.append('fail %s %s %d %s' % (kind, pat, rng.choice([0, 0, 1, 2]), action))
     seed = 1000
     for _ in range(rng.randrange(3, 9)):
@@ -51,9 +52,43 @@ def gen_script(rng):
     return '\n'.join(L) + '\n'
 
 
+def gen_create_script(rng):
+    """The fault hits the creation of an active blob (file create / the 20-byte header append, failing or short /
+    its sync), through try_create_active_blob or through the first write without an active blob; the creation is
+    retried once the fault is cleared."""
+    g = Gen(rng, queries=(), maint=0.1, restart=rng.choice([0.0, 0.15]), deletes=0.1, bg=0.0, nops=rng.randrange(3, 9), dup=1, metas=False)
+    L = g.build().strip().split('\n')
+    qs = ['R %s' % k for k in g.keys]
+    L.append('close_active')
+    kind = rng.choice(['append', 'append', 'append', 'create', 'sync'])
+    action = rng.choice(['short:%d' % rng.randrange(0, 20), 'short:%d' % rng.randrange(8, 12), 'ENOSPC', 'EIO']) if kind == 'append' else rng.choice(['ENOSPC', 'EIO'])
+    L.append('fail %s .blob 0 %s' % (kind, action))
+    seed = 2000
+    for _ in range(rng.choice([1, 1, 2])):
+        seed += 1
+        L.append(rng.choice(['create_active', 'W %s 12 - 5 %d' % (rng.choice(g.keys), seed), 'D %s 12 - 0' % rng.choice(g.keys)]))
+        L += qs
+    L.append('clearfail')
+    L.append('quiesce')
+    L.append(rng.choice(['create_active', 'nop']))
+    L += qs
+    L.append('counts')
+    for _ in range(3):
+        seed += 1
+        L.append('W %s %d - 5 %d' % (rng.choice(g.keys), rng.choice([13, 15]), seed))
+    L.append('force_update always')
+    L += qs
+    L.append('counts')
+    L.append('close')
+    L.append('open')
+    L += qs
+    L.append('counts')
+    return '\n'.join(L) + '\n'
+
+
 def gen(tier, rng):
     n = 260 if tier == 'quick' else 6000
-    return [('fault%05d' % i, gen_script(rng)) for i in range(n)]
+    return [('fault%05d' % i, gen_script(rng)) for i in range(n)] + [('create%05d' % i, gen_create_script(rng)) for i in range(n // 3)]
 
 
 def spec_for_acknowledged(lines, io):
@@ -88,7 +123,7 @@ def oracle(lines, io, spec=None):
     fault = lines[fi]
     aspec, amodel = spec_for_acknowledged(lines, io)
     ci = lines.index('clearfail')
-    close_i = lines.index('close')
+    close_i = lines.index('close', ci)
     open_i = close_i + 1
     hit = any(' Err ' in o for o in io[fi:ci])
     bg_fault = not hit
@@ -102,7 +137,8 @@ def oracle(lines, io, spec=None):
         if kind == 'append' and pat == '.blob' and any(l in ('close', 'drop') for l in lines[:fi]) and \
                 any(lines[j].split()[0] in ('W', 'D') and ' Err Io' in io[j] for j in range(fi, min(ci, len(io)))):
             return '[F20] '
-        if pat == '.index' or kind == 'writeat':
+        if (pat == '.index' or kind == 'writeat') and i < open_i:
+            # in-session only: at the next start an index file without its written flag is recomputed from the blob
             return '[F9] '
         if kind == 'sync' and any(lines[j] == 'close_active' and ' Err ' in io[j] for j in range(fi, min(i + 1, len(io)))):
             return '[F15] '
